@@ -18,7 +18,8 @@ def tables(_):
         if id(d) not in seen:
             seen.add(id(d))
             out.append(list(d.exponents))
-    prefixes = sorted({(p.base, p.exponent) for p in Prefix._by_name.values() if isinstance(p.exponent, int)})
+    # every prefix the shipped modules intern with an integer exponent, registered or anonymous (e.g. 2^3 of the byte)
+    prefixes = sorted({(p.base, p.exponent) for p in Prefix._known.values() if isinstance(p.exponent, int) and p.base != 0 and abs(p.exponent) <= 80})
     return {"dims": out, "prefixes": [[0, 0]] + [list(p) for p in prefixes]}
 
 
